@@ -80,8 +80,11 @@ impl Node {
     req["id"] = json!(id);
     let line = serde_json::to_string(&req).unwrap();
     if self.stdin.write_all(line.as_bytes()).is_err() || self.stdin.write_all(b"\n").is_err() || self.stdin.flush().is_err() {
+      // the worker died between two requests: one more attempt on a fresh worker
       self.restart();
-      return Exec { lines: vec![], end: "infra".into(), message: "node worker unavailable".into() };
+      if self.stdin.write_all(line.as_bytes()).is_err() || self.stdin.write_all(b"\n").is_err() || self.stdin.flush().is_err() {
+        return Exec { lines: vec![], end: "infra".into(), message: "node worker unavailable".into() };
+      }
     }
     loop {
       match self.rx.recv_timeout(timeout) {
@@ -101,19 +104,40 @@ impl Node {
           return Exec { lines: vec![], end: "timeout".into(), message: "watchdog".into() };
         }
         Err(_) => {
+          // the node process died while running this program (V8 out of memory, fatal error, ...)
           self.restart();
-          return Exec { lines: vec![], end: "infra".into(), message: "node worker died".into() };
+          return Exec { lines: vec![], end: "died".into(), message: "node worker died".into() };
         }
       }
     }
   }
 
   pub fn run_wasm(&mut self, wasm: &[u8], loader: &str, main: &str, timeout: Duration) -> Exec {
-    self.request(json!({"kind": "wasm", "wasm_b64": base64(wasm), "loader": loader, "main": main}), timeout)
+    let req = json!({"kind": "wasm", "wasm_b64": base64(wasm), "loader": loader, "main": main});
+    let r = self.request(req.clone(), timeout);
+    // a death may be incidental: once more on the fresh worker; twice in a row is the program's doing
+    // (resource exhaustion inside the engine) and is reported as `timeout`-like, i.e. inconclusive
+    if r.end == "died" {
+      let r2 = self.request(req, timeout);
+      Self::died_to_timeout(r2)
+    } else {
+      r
+    }
   }
 
   pub fn run_ts(&mut self, code: &str, timeout: Duration) -> Exec {
-    self.request(json!({"kind": "ts", "code": code, "timeout_ms": timeout.as_millis() as u64}), timeout + Duration::from_secs(5))
+    let req = json!({"kind": "ts", "code": code, "timeout_ms": timeout.as_millis() as u64});
+    let r = self.request(req.clone(), timeout + Duration::from_secs(5));
+    if r.end == "died" {
+      let r2 = self.request(req, timeout + Duration::from_secs(5));
+      Self::died_to_timeout(r2)
+    } else {
+      r
+    }
+  }
+
+  fn died_to_timeout(r: Exec) -> Exec {
+    if r.end == "died" { Exec { lines: vec![], end: "timeout".into(), message: "node process died twice while running this program (engine resource exhaustion)".into() } } else { r }
   }
 }
 
